@@ -244,10 +244,10 @@ func init() {
 	}
 	c05 := findCheck("C05")
 	c05.Harnesses = append(c05.Harnesses, Harness{Name: "C05_big", Pkg: "zzh", Func: "H_C05_big", Reach: []string{"done"},
-		What: "size ladder: Sum/Avg/Mean/Var/Std/Max/Min of vectors of 255..8200 elements (fixed small integers except 9-25 solver-chosen elements at head, tail and every 509th position; extrema: tail only), the same statistic (and SumAlong(0)) of the same data as an [n/8, 8] matrix when 8 divides n",
+		What:  "size ladder: Sum/Avg/Mean/Var/Std/Max/Min of vectors of 255..8200 elements (fixed small integers except 9-25 solver-chosen elements at head, tail and every 509th position; extrema: tail only), the same statistic (and SumAlong(0)) of the same data as an [n/8, 8] matrix when 8 divides n",
 		Items: tiered(func() []Item { return sItems("op", []string{"Sum", "Avg", "Max", "Var"}, nItems(true)) }, func() []Item { return sItems("op", redOps, nItems(false)) })})
 	c19 := findCheck("C19")
-	c19.Harnesses = append(c19.Harnesses, Harness{Name: "C19_big", Pkg: "component/metrics", Func: "H_C19_big", Reach: []string{"done"},
+	c19.Harnesses = append(c19.Harnesses, Harness{Name: "C19_big", Pkg: "zzh", Func: "H_C19_big", Reach: []string{"done"},
 		What:  "size ladder: one Accumulate of a batch of 255..8200 positions from an arbitrary pre-state, match pattern fixed except 11-25 solver-chosen positions (head, tail, every 509th)",
 		Items: tiered(func() []Item { return nItems(true) }, func() []Item { return nItems(false) })})
 }
@@ -266,6 +266,8 @@ func init() {
 		})})
 	c05 := findCheck("C05")
 	c05.Harnesses = append(c05.Harnesses, Harness{Name: "C05_fp", Pkg: "zzh", Func: "H_C05_fp", Reach: []string{"done"}, FP: true,
-		What:  "BIT-PRECISE (binary64): Var of a vector of 1..2 (thorough 1..3) finite elements of magnitude <= 1e6 is a number >= 0 and finite (so Std is never NaN)",
-		Items: tiered(func() []Item { return items(map[string]int64{"n": 1}, map[string]int64{"n": 2}) }, func() []Item { return items(map[string]int64{"n": 1}, map[string]int64{"n": 2}, map[string]int64{"n": 3}) })})
+		What: "BIT-PRECISE (binary64): Var of a vector of 1..2 (thorough 1..3) finite elements of magnitude <= 1e6 is a number >= 0 and finite (so Std is never NaN)",
+		Items: tiered(func() []Item { return items(map[string]int64{"n": 1}, map[string]int64{"n": 2}) }, func() []Item {
+			return items(map[string]int64{"n": 1}, map[string]int64{"n": 2}, map[string]int64{"n": 3})
+		})})
 }
